@@ -11,8 +11,12 @@
    - the outer loop `while unresolved_count > 0 and resolved_count > 0` over all models;
    - the final `OrderedDict(sorted(pos_rule_dict.items(), key=(-start, end)))`.
 
+   The data-like facts (which position fills which RefRulePosition field, whether and by what
+   the list is sorted, setdefault vs assignment, the sort key of the map) are not written here:
+   they are the constants of Gen/SrcEdPos.v, regenerated from the source on every run.
+
    No proofs here (Proofs/EdPosProofs.v). *)
-From TxV Require Import Core.Base.
+From TxV Require Import Core.Base Model.EdPosDefs Gen.SrcEdPos.
 
 (* ---------------------------------------------------------------- parse trees *)
 (* the part of a parse tree the builder looks at: nodes of common rules (objects) with their
@@ -77,15 +81,25 @@ Definition ikey (x : N * N * nat) : N * N := fst x.
 Definition key_eqb (a b : N * N) : bool := N.eqb (fst a) (fst b) && N.eqb (snd a) (snd b).
 Definition has_key (k : N * N) (d : list (N * N * nat)) : bool := existsb (fun y => key_eqb k (ikey y)) d.
 
-(* dict.setdefault: the first object registered for a span stays *)
+(* the registration statement of process_node: with setdefault the first object registered
+   for a span stays, with an assignment the last one replaces it (same place in the dict) *)
 Definition setdefault (d : list (N * N * nat)) (x : N * N * nat) : list (N * N * nat) :=
-  if has_key (ikey x) d then d else d ++ [x].
+  if has_key (ikey x) d
+  then match src_dict_register with
+       | KeepFirst => d
+       | Overwrite => map (fun y => if key_eqb (ikey y) (ikey x) then x else y) d
+       end
+  else d ++ [x].
 
 Definition dict_raw (n : node) : list (N * N * nat) := fold_left setdefault (objs_post n) [].
 
-(* sort key (-start, end): later start first, then earlier end *)
+(* the sort key of the final sorted(...): (start, end) compared lexicographically, each
+   component in the direction found in the source ((-start, end) = (Desc, Asc)) *)
+Definition dir_lt (o : order) (a b : N) : bool := match o with Asc => N.ltb a b | Desc => N.ltb b a end.
+Definition dir_le (o : order) (a b : N) : bool := match o with Asc => N.leb a b | Desc => N.leb b a end.
 Definition key_le (a b : N * N) : bool :=
-  N.ltb (fst b) (fst a) || (N.eqb (fst a) (fst b) && N.leb (snd a) (snd b)).
+  dir_lt (fst src_dict_order) (fst a) (fst b) ||
+  (N.eqb (fst a) (fst b) && dir_le (snd src_dict_order) (snd a) (snd b)).
 
 Fixpoint insert_item (x : N * N * nat) (l : list (N * N * nat)) : list (N * N * nat) :=
   match l with
@@ -112,23 +126,36 @@ Inductive answer := Resolved (t : target) | Postponed | NotFound.
 Record entry := { e_ref : nat; e_name : list N; e_start : N; e_end : N;
                   e_file : nat; e_dstart : N; e_dend : N }.
 
+Definition sel (p : possrc) (x : cref) (t : target) : N :=
+  match p with RefStart => cstart x | RefEnd => cend x | TgtStart => tstart t | TgtEnd => tend t end.
+
+(* the RefRulePosition(...) call, fields filled as the source does *)
 Definition mk_entry (xt : cref * target) : entry :=
   let (x, t) := xt in
-  {| e_ref := cid x; e_name := cname x; e_start := cstart x; e_end := cend x;
-     e_file := tfile t; e_dstart := tstart t; e_dend := tend t |}.
+  {| e_ref := cid x; e_name := cname x;
+     e_start := sel src_ref_pos_start x t; e_end := sel src_ref_pos_end x t;
+     e_file := tfile t;
+     e_dstart := sel src_def_pos_start x t; e_dend := sel src_def_pos_end x t |}.
 
 (* a scope provider is any function of the reference and of the history of provider calls
    made so far in this load (most recent first): every postponement schedule *)
 Definition provider := cref -> list nat -> answer.
 
+Definition ekey (k : ekeysrc) (e : entry) : N :=
+  match k with KRefStart => e_start e | KRefEnd => e_end e | KDefStart => e_dstart e | KDefEnd => e_dend e end.
+
 Fixpoint insert_entry (x : entry) (l : list entry) : list entry :=
   match l with
   | [] => [x]
-  | y :: r => if N.leb (e_start x) (e_start y) then x :: l else y :: insert_entry x r
+  | y :: r => if N.leb (ekey src_list_key x) (ekey src_list_key y) then x :: l else y :: insert_entry x r
   end.
 
-(* list.sort(key=ref_pos_start), stable *)
-Definition sort_entries (l : list entry) : list entry := fold_right insert_entry [] l.
+(* list.sort(key=...), stable *)
+Definition sort_entries_core (l : list entry) : list entry := fold_right insert_entry [] l.
+
+(* the list is sorted at the end of every step only if the source does so unconditionally *)
+Definition sort_entries (l : list entry) : list entry :=
+  if src_list_sorted then sort_entries_core l else l.
 
 (* the loop body of resolve_one_step over the pending references of one model:
    (history, entries appended in resolution order, delayed references, number resolved);
